@@ -187,3 +187,46 @@ def plumbing(ctx: Context, rule: str, params: T.Iterable[str]) -> None:
                                f"{f.short} passes `{K}={bad[0][:60]}` to {callee.name}; expected one of {sorted(ok_terms)}: the configured `{K}` does not reach the connection")
     rep.floor(rule, "constructor parameters checked (store link)", nstore, 2)
     rep.floor(rule, "constructor call keywords checked (pass link)", npass, 2)
+
+
+IDENTITY = ("scheme", "host", "port")
+
+
+def derived_identity(ctx: Context, rule: str) -> None:
+    """A URL / Origin that is built from the components of another one (`URL(scheme=x.scheme, host=x.host, ...)`) must copy ALL
+    identity components - scheme, host and port - each from the same-named component of the same source object: the pool keys
+    connections by (scheme, host, port), so a rebuild that loses one of them sends the request to a different endpoint."""
+    rep = ctx.rep
+    funcs: list[tuple[str, FuncInfo]] = []
+    for tree, N in trees(ctx):
+        funcs += [(tree, f) for f in N.functions()]
+    funcs += [("shared", f) for f in ctx.prog.module("httpcore._models").all_functions()]
+    n = 0
+    for tree, f in funcs:
+        for c in own_nodes(f.node):
+            if not (isinstance(c, ast.Call) and norm(c.func) in ("URL", "Origin")):
+                continue
+            kws = {k.arg: k.value for k in c.keywords if k.arg}
+            # source objects: `<X>.<field>` with field an identity component
+            srcs: dict[str, set[str]] = {}
+            for K, v in kws.items():
+                for a in ast.walk(v):
+                    if isinstance(a, ast.Attribute) and a.attr in IDENTITY and K in IDENTITY:
+                        srcs.setdefault(norm(a.value), set()).add(K)
+            if not srcs:
+                continue
+            n += 1
+            problems = []
+            if len(srcs) > 1:
+                problems.append(f"identity components come from different objects {sorted(srcs)}")
+            src = sorted(srcs)[0]
+            for K in IDENTITY:
+                v = kws.get(K)
+                if v is None:
+                    problems.append(f"`{K}` is not copied (falls back to the constructor default)")
+                elif not any(isinstance(a, ast.Attribute) and a.attr == K and norm(a.value) == src for a in ast.walk(v)):
+                    problems.append(f"`{K}={ast.unparse(v)[:40]}` is not `{src}.{K}`")
+            rep.ob(rule, fkey(tree, f, f"derived:{norm(c.func)}:{src}"), not problems, where(f, c),
+                   f"{norm(c.func)}(...) rebuilt from `{src}` copies scheme, host and port" if not problems else
+                   f"{norm(c.func)}(...) rebuilt from `{src}`: " + "; ".join(problems) + " - the request then travels on a connection for a different (scheme, host, port)")
+    rep.floor(rule, "URL / Origin objects derived from another one", n, 4)
